@@ -321,8 +321,10 @@ class Message(MessageBase):  # add _expired attr
         def fraction_expired(lifespan: td) -> float:
             """Return the packet's age as fraction of its 'normal' life span."""
             age = self._gwy._dt_now() - self.dtm - _TD_SECS_003
+            if age < td(0):  # within the grace (NB: a -ve fraction could equal CANT_EXPIRE)
+                return 0.0
             if not lifespan:  # e.g. a sync_cycle with a countdown of 0: only the grace
-                return self.HAS_EXPIRED if age >= td(0) else 0.0
+                return self.HAS_EXPIRED
             return age / lifespan
 
         # 1. Look for easy win...
